@@ -140,6 +140,18 @@ theorem fact_filter_returns_fresh_slice :
     C18Copy.filterRemainingInit = "cloudprovider.InstanceTypes{}" ∧ C18Copy.filterReturns = ["nil", "remaining"] := by
   decide
 
+/-- origin lemma "the DRA allocator's counter budgets are copies": `computeTemplateTotals` builds the per-(NodeClaim,
+    instance type) remaining shared-counter budget — which `AllocationTracker.commitTemplateCounters` lowers in place with
+    every committed allocation — from the cloud provider's `ResourceSliceTemplate.SharedCounters`.  Every value it stores
+    goes into a map the function made itself and is either such a map or a `Counter` literal whose fields are `DeepCopy()`
+    results, and it returns a map it made: nothing of the provider's template is reachable from the budget that the
+    simulation writes to (the region hypothesis of `C18_simulation_unobservable` for the provider's templates) -/
+theorem fact_template_totals_are_copies :
+    C18Copy.templateTotalsStores.isEmpty = false ∧
+    C18Copy.templateTotalsStores.all (fun s => s.2 == "fresh-map" || s.2 == "deepcopy-literal") = true ∧
+    C18Copy.templateTotalsStores.any (fun s => s.2 == "deepcopy-literal") = true ∧
+    C18Copy.templateTotalsReturns = ["fresh-map"] := by decide
+
 /-- the nomination window is `max(2·BatchMaxDuration, 10 s)` -/
 theorem fact_nomination_window :
     C18Copy.nominationBatchMultiplier = 2 ∧ C18Copy.nominationFloorSeconds = 10 := by decide
